@@ -212,8 +212,10 @@ func runHistory(spec *SeqSpec, hist []SeqEvent) *SeqRun {
 	if nclients < 1 {
 		nclients = 1
 	}
-	mailbox := make([]Op, nclients)
-	stop := false
+	// idle clients are BLOCKED on their mailbox (not merely parked at a yield), so that the
+	// driver's own blocking probes can never schedule them by accident
+	boxes := make([]chan Op, nclients)
+	inOp := make([]bool, nclients)
 	body := func() {
 		vtime.ResetClock()
 		vsched.SetDaemonYield(true)
@@ -237,13 +239,13 @@ func runHistory(spec *SeqSpec, hist []SeqEvent) *SeqRun {
 		clients := make([]int, nclients)
 		for ci := 0; ci < nclients; ci++ {
 			ci := ci
+			boxes[ci] = make(chan Op, 1)
 			clients[ci] = vsched.Spawn(fmt.Sprintf("client%d", ci), func() {
 				for {
-					vsched.Yield()
-					if stop {
-						return
-					}
-					runOp(c, mailbox[ci])
+					op := vsched.Recv(boxes[ci])
+					inOp[ci] = true
+					runOp(c, op)
+					inOp[ci] = false
 				}
 			})
 		}
@@ -277,7 +279,6 @@ func runHistory(spec *SeqSpec, hist []SeqEvent) *SeqRun {
 			tid, pick := -1, 0
 			switch e.K {
 			case "op":
-				mailbox[e.T] = *e.Op
 				tid = clients[e.T]
 				if k := e.Op.K; k == "set" || k == "setttl" || k == "del" || k == "get" {
 					// antecedents of the call, read white-box while every thread is parked
@@ -353,6 +354,9 @@ func runHistory(spec *SeqSpec, hist []SeqEvent) *SeqRun {
 					}
 				}
 			}
+			if e.K == "op" {
+				vsched.Send(boxes[e.T], *e.Op)
+			}
 			st = vsched.Drive(tid, pick)
 			ci := 0
 			for st == vsched.DriveChoice {
@@ -366,6 +370,9 @@ func runHistory(spec *SeqSpec, hist []SeqEvent) *SeqRun {
 			if run.NeedChoice > 0 {
 				run.Status = append(run.Status, "choice")
 				return // the search re-runs this history with the choice appended
+			}
+			if (e.K == "op" || e.K == "resume") && st == vsched.DriveBlocked && !inOp[e.T] {
+				st = vsched.DriveYielded // back at the mailbox: the call completed
 			}
 			run.Status = append(run.Status, st.String())
 			if e.K == "applier" && len(headBefore) > 0 && len(c.BufShadow()) == len(headBefore)-1 {
@@ -426,9 +433,9 @@ func runHistory(spec *SeqSpec, hist []SeqEvent) *SeqRun {
 			}
 		}
 		if spec.Probe != nil {
+			run.Events = vsched.Events() // the probe may look at what the history did
 			spec.Probe(c, run)
 		}
-		stop = true
 	}
 	res := vsched.Run(body, zeroChooser{}, vsched.Options{MaxSteps: 200000})
 	run.Events = res.Events
@@ -688,6 +695,14 @@ type SeqJob struct {
 }
 
 func findSeq(p *Prop, tier, name string) *SeqSpec {
+	if p.SeqByName != nil {
+		if s := p.SeqByName(name); s != nil {
+			return s
+		}
+	}
+	if p.Seq == nil {
+		return nil
+	}
 	for _, t := range []string{tier, "thorough", "quick"} {
 		for _, sj := range p.Seq(t) {
 			if sj.Name == name {
